@@ -141,7 +141,7 @@ func (w *wire) read(p []byte) (int, error) {
 }
 
 func devString(read, want, full, got int) string {
-	return fmt.Sprintf("read#%d(want %d, available %d) -> %d", read, want, full, got)
+	return fmt.Sprintf("raw read #%d (buffer %d, full answer %d) answered with %d bytes", read, want, full, got)
 }
 
 func (w *wire) consume(n int) {
